@@ -191,7 +191,8 @@ func init() {
 	// operations released by later ones, several sessions) and folds the acknowledgements the
 	// streams carried, in the order they carried them
 	props["C01"] = &PropSpec{Mode: "rib", Extra: []string{"srv.answers"}, Diffs: append(append([]string{}, ribDiffs...), "msg.resps", "msg.not-accepted"), Monitors: []string{"c01"}}
-	props["C02"] = &PropSpec{Mode: "rib", Diffs: []string{"add.", "pend"}, Monitors: []string{"c02"}}
-	props["C03"] = &PropSpec{Mode: "rib", Diffs: []string{"refs", "del."}, Monitors: []string{"c03"}}
+	// "gap": the same judgement with a second writer let in at every point where AddEntry / DeleteEntry pause (the property quantifies over histories, and two sessions make histories that one cannot)
+	props["C02"] = &PropSpec{Mode: "rib", Extra: []string{"gap"}, Diffs: []string{"add.", "pend"}, Monitors: []string{"c02"}}
+	props["C03"] = &PropSpec{Mode: "rib", Extra: []string{"gap"}, Diffs: []string{"refs", "del."}, Monitors: []string{"c03"}}
 	props["C16"] = &PropSpec{Mode: "rib", Diffs: []string{"hooks", "resolved"}, Monitors: []string{"c16"}}
 }
